@@ -89,9 +89,34 @@ func init() {
 		}
 		return p
 	}
+	// the next N calls on the primary store time out (a latency spike): the profile read of the next request is slow, the one after is fast again
+	vfExtraOps["latency_spike"] = func(w *vfWorld, st vfStep, p *vfPrepared) *vfPrepared {
+		p.env = func() {
+			w.fault("db.primary.down.partial")
+			w.primary.setDownCalls(int(st.N), 2500*time.Millisecond)
+		}
+		return p
+	}
+	// the password backend fails (directory unreachable / helper crashed) or recovers
+	vfExtraOps["pwbackend"] = func(w *vfWorld, st vfStep, p *vfPrepared) *vfPrepared {
+		p.env = func() {
+			if w.pw != nil {
+				w.pw.Fail = st.A == "fail"
+				if w.pw.Fail {
+					w.fault("pw.backend.error")
+				}
+			}
+		}
+		return p
+	}
 	// lock-out measurement: N consecutive failures (2.1 s apart), then correct codes at growing distances
 	vfExtraOps["lockout_probe"] = func(w *vfWorld, st vfStep, p *vfPrepared) *vfPrepared {
-		p.env = func() { w.lockoutProbe(st.Sess, st.User, int(st.N)) }
+		p.env = func() {
+			pause, _ := time.ParseDuration(st.D)
+			w.lockoutPause = pause
+			w.lockoutProbe(st.Sess, st.User, int(st.N))
+			w.lockoutPause = 0
+		}
 		return p
 	}
 
@@ -103,7 +128,7 @@ func init() {
 		Setup: func(w *vfWorld) {
 			w.observers = append(w.observers, func(p *vfPrepared, ctx *vfReqCtx, resp *vfResp) {
 				if p.step.Op == "totp" && resp.Code == 200 {
-					w.totpAccepted(w.subjectOf(w.session(p.step.Sess)), p.step.Par != 0)
+					w.totpAcceptedAt(w.subjectOf(w.session(p.step.Sess)), p.step.Par != 0, ctx.ended)
 				}
 			})
 		},
@@ -143,8 +168,9 @@ func (w *vfWorld) totpGuess(sess, user string, right bool, which string) bool {
 	r := w.serve(&vfReq{Method: "POST", Path: "/api/v0/TOTPAuth", Cookies: map[string]string{authCookieName: s.Cookies[authCookieName]}, Form: url.Values{"OTP": {code}}})
 	accepted := r.Code == 200
 	w.probe("totp-evaluations")
-	// an attempt less than 2 s after the last EVALUATED one must not be evaluated itself
-	since := now.Sub(f.lastTOTPAttempt)
+	// an attempt less than 2 s after the last EVALUATED one must not be evaluated itself.  A request may wait
+	// for storage before its code is looked at, so both instants are taken when the answer leaves.
+	since := time.Now().Sub(f.lastTOTPAttempt)
 	evaluated := f.lastTOTPAttempt.IsZero() || since >= 2*time.Second
 	if accepted && !evaluated {
 		w.violate("C14", "otp-spacing", "otp-spacing", fmt.Sprintf("a code was evaluated (and accepted) %.1fs after the previous evaluation for %s", since.Seconds(), user))
@@ -159,7 +185,7 @@ func (w *vfWorld) totpGuess(sess, user string, right bool, which string) bool {
 	}
 	_ = fresh
 	if evaluated || accepted {
-		f.lastTOTPAttempt = now
+		f.lastTOTPAttempt = time.Now() // the evaluation happened while the request was served (it may have waited for storage)
 	}
 	w.logf("totpguess user=%s right=%v -> %d", user, right, r.Code)
 	return accepted
@@ -179,6 +205,11 @@ func (w *vfWorld) lockoutProbe(sess, user string, n int) {
 	}
 	for i := 0; i < n; i++ {
 		time.Sleep(2100 * time.Millisecond)
+		if i == 4 && w.lockoutPause > 0 && i < n {
+			// a patient guesser: four failures, a pause (well under an hour), then on with it - still "repeated failures"
+			time.Sleep(w.lockoutPause)
+			synctest.Wait()
+		}
 		w.totpGuess(sess, user, false, "")
 	}
 	start := time.Now()
@@ -213,9 +244,15 @@ func (w *vfWorld) lockoutProbe(sess, user string, n int) {
 
 // two accepted validations of one user's codes less than two seconds apart
 // prove two evaluations inside the spacing window
-func (w *vfWorld) totpAccepted(user string, concurrent bool) {
-	now := time.Now()
-	if last, ok := w.totpAcceptAt[user]; ok && now.Sub(last) < 2*time.Second {
+func (w *vfWorld) totpAccepted(user string, concurrent bool) { w.totpAcceptedAt(user, concurrent, time.Now()) }
+
+// at: the instant the accepting handler returned (members of a concurrent group are observed together afterwards)
+func (w *vfWorld) totpAcceptedAt(user string, concurrent bool, at time.Time) {
+	now := at
+	if now.IsZero() {
+		now = time.Now()
+	}
+	if last, ok := w.totpAcceptAt[user]; ok && now.Sub(last) < 2*time.Second && last.Sub(now) < 2*time.Second {
 		key := "otp-spacing"
 		if concurrent {
 			key = "otp-spacing:concurrent"
@@ -278,7 +315,13 @@ func genRatePlan(r *rand.Rand, tier string) *vfPlan {
 			case 4:
 				add(vfStep{Op: "totpguess", Sess: "t2", User: "bob", A: "right", D: "300ms"})
 			case 5, 6:
-				add(vfStep{Op: "lockout_probe", Sess: "t1", User: "alice", N: int64(pick(r, []int{5, 5, 10, 15}))})
+				add(vfStep{Op: "lockout_probe", Sess: "t1", User: "alice", N: int64(pick(r, []int{5, 5, 10, 15})), D: pick(r, []string{"", "", "6m", "20m"})})
+			case 8:
+				// a storage latency spike under one guess, the next guess right behind it
+				add(vfStep{Op: "sleep", D: "3s"})
+				add(vfStep{Op: "latency_spike", N: 1}) // exactly the profile read of the next request
+				add(vfStep{Op: "totpguess", Sess: "t1", User: "alice", A: "wrong", D: "100ms"})
+				add(vfStep{Op: "totpguess", Sess: "t1", User: "alice", A: "right", D: pick(r, []string{"50ms", "100ms", "500ms"}), B: pick(r, []string{"", "next"})})
 			case 7:
 				// three valid codes presented at the same instant by three sessions of the same user
 				add(vfStep{Op: "sleep", D: "3s"})
@@ -312,6 +355,9 @@ func genRatePlan(r *rand.Rand, tier string) *vfPlan {
 	for i := 0; i < n; i++ {
 		switch r.IntN(10) {
 		case 0, 1, 2, 3, 4, 5:
+			if chance(r, 0.2) {
+				add(vfStep{Op: "pwbackend", A: pick(r, []string{"fail", "fail", "ok"})})
+			}
 			add(vfStep{Op: "pwburst", N: int64(pick(r, []int{1, 5, 20, 60, 120, 250, 400})), A: pick(r, []string{"mix", "mix", "form", "basic", "certgen", "html", "profile"}), User: pick(r, []string{"many", "many", "alice"}), B: pick(r, []string{"wrong", "wrong", "wrong", "cur"})})
 		default:
 			add(vfStep{Op: "sleep", D: pick(r, []string{"100ms", "1s", "2s", "5s", "30s", "120s"})})
